@@ -153,7 +153,8 @@ func runC12Api(t *tr.Trace, root string) {
 	ctypes := []string{"", "application/json; charset=utf-8", "APPLICATION/JSON", "application/json;;;", "text/plain; charset=utf-8",
 		"application/jwk-set+json", "application/x-www-form-urlencoded", "\x00/\x00", "application/json, text/plain"}
 	conds := []map[string]string{{"If-Match": "*"}, {"If-None-Match": "*"}, {"If-Match": `"x"`}, {"If-Match": `W/"x", "y`},
-		{"If-None-Match": `"`}, {"If-Match": ","}, {"If-None-Match": strings.Repeat(`"a",`, 5000)}, {"If-Match": "\x00"}}
+		{"If-None-Match": `"`}, {"If-Match": ","}, {"If-None-Match": strings.Repeat(`"a",`, 5000)}, {"If-Match": "\x00"},
+		{"If-Match": "W/"}, {"If-None-Match": `"a", W/`}, {"If-Match": "W"}, {"If-None-Match": `W/"`}, {"If-Match": `"a" W/`}}
 	for _, p := range paths {
 		t.History("api", "c12-api")
 		w := newWorld(t, root, baseEnv("", true))
